@@ -205,9 +205,27 @@ Definition dec_to_N (l : bytes) : N := fold_left (fun a d => a * 10 + (d - 48)) 
 
 (* a private component (given by its magnitude bytes, at least 8 of them) appears in some
    displayed string: raw, in hexadecimal of either case, or as a decimal number *)
+(* base64 (RFC 4648 alphabet) of whole three-octet groups; inside the base64 text of a larger blob the
+   magnitude starts at one of three alignments, so its groups from offset 0, 1 or 2 appear verbatim *)
+Definition b64_char (v : N) : N :=
+  if v <? 26 then 65 + v else if v <? 52 then 97 + (v - 26) else if v <? 62 then 48 + (v - 52)
+  else if v =? 62 then 43 else 47.
+Fixpoint b64_groups (l : bytes) : bytes :=
+  match l with
+  | a :: b :: c :: r =>
+      let n := a * 65536 + b * 256 + c in
+      b64_char (n / 262144) :: b64_char ((n / 4096) mod 64) :: b64_char ((n / 64) mod 64) :: b64_char (n mod 64) :: b64_groups r
+  | _ => []
+  end.
+(* hexadecimal with a separator between the octets (aa:bb:cc, aa bb cc) *)
+Definition hex_sep (upper : bool) (sep : N) (l : bytes) : bytes :=
+  match l with [] => [] | x :: r => hex_byte upper x ++ flat_map (fun b => sep :: hex_byte upper b) r end.
+
 Definition leaks (strs : list bytes) (mag : bytes) : bool :=
   if Nat.ltb (length mag) 8 then false else
-  let forms := [mag; hex_of false mag; hex_of true mag] in
+  let forms := [mag; hex_of false mag; hex_of true mag;
+                hex_sep false 58 mag; hex_sep true 58 mag; hex_sep false 32 mag; hex_sep true 32 mag;
+                b64_groups mag; b64_groups (drop 1 mag); b64_groups (drop 2 mag)] in
   existsb (fun s => existsb (fun f => contains f s) forms
                     || existsb (fun run => Nat.leb 16 (length run) && (dec_to_N run =? be_to_N mag)) (digit_runs [] s)) strs.
 
@@ -270,6 +288,22 @@ Definition check_spec_strict (spec : arg) (obs : arg) : arg :=
    to it); a reader may refuse it, but whatever it reports has to be true of the key that is there *)
 Definition check_spec (spec : arg) (obs : arg) : arg :=
   match spec with
+  | AL [AB _; AL forbidden; AZ must_say] =>
+      (* a private key under an algorithm the tool does not decode: no key facts are asked for.  The
+         property's "recognised private key": the CONTAINER is recognised (PKCS#8 PrivateKeyInfo, SEC1) -
+         then the report is that of a private key (must_say = 1) - and in any case none of the private
+         octets is shown anywhere in the report tree (descriptions and attribute values at every depth) *)
+      match obs with
+      | AL [AZ 0%Z; ia] =>
+          let i := info_of_arg ia in
+          if existsb (fun f => leaks (all_strings i) (arg_bytes f)) forbidden
+          then AS "a private component is displayed"
+          else if negb (Z.eqb must_say 0) && negb (contains (bs "private key") (map to_lower_ascii (i_desc i)))
+          then AS "a private key in a recognised container is not described as a private key"
+          else AL []
+      | AL [AZ 2%Z] => AS "panic while describing a key"
+      | _ => if Z.eqb must_say 0 then AL [] else AS "a private key in a recognised container is not described"
+      end
   | AL [a; b; c; d; e; AZ 1%Z] =>
       match obs with AL [AZ 1%Z] => AL [] | _ => check_spec_strict (AL [a; b; c; d; e]) obs end
   | _ => check_spec_strict spec obs
